@@ -215,7 +215,7 @@ def run(ctx):
         ctx.require(n.get(pfx + "_accept", 0) > 20, "%s: fewer than 20 accepted verifications" % pfx)
         ctx.require(n.get(pfx + "_reject", 0) > 1000, "%s: fewer than 1000 rejected candidates" % pfx)
     ctx.require(n.get("signatures_ok", 0) > 300, "fewer than 300 signatures were produced and compared with the reference")
-    ctx.require(n.get("signatures_ok", 0) > 0.9 * n.get("signatures", 0), "sign() refused more than 10% of the configurations")
+    ctx.require(n.get("signatures_ok", 0) > 0.9 * n.get("sign_calls", 0), "sign() refused more than 10% of the configurations")
     schemes = {c[0] for c in cl}
     for s in ("v15", "v15-forge", "pss", "pss-forge", "dsa", "ecdsa", "eddsa", "eddsa-crafted"):
         ctx.require(s in schemes, "no case of scheme/part %s was executed" % s)
@@ -259,7 +259,7 @@ def run(ctx):
         "distinct_nontrivial": len(cl),
         "exhaustive": not a.caps,
         "signatures_compared_with_reference": n.get("signatures_ok", 0),
-        "sign_calls": n.get("signatures", 0),
+        "sign_calls": n.get("sign_calls", 0),
         "distinct_sign_configurations": len(a.distinct.get("sign_cfgs", ())),
         "fips_entropy_tapes": n.get("tapes", 0),
         "eddsa_crafted_small_order_cases": n.get("crafted_cases", 0),
